@@ -109,6 +109,33 @@ theorem pairwise_symmetric (H : Hashes) (q : List Nat) (view : Nat → Contribut
 
 example : (1 : Nat) ∈ [2, 1] ∧ (2 : Nat) ∈ [2, 1] ∧ (1 : Nat) ≠ 2 := by decide
 
+/-- … hence both ends read the same bytes, for every read length `n` (the harness reads 16–320 bytes). -/
+theorem pairwise_symmetric_read (H : Hashes) (q : List Nat) (view : Nat → Contribution) (c : Nat → Nat → Bytes)
+    {i j : Nat} (hi : i ∈ q) (hj : j ∈ q) (hij : i ≠ j) (n : Nat) :
+    ((honestContext H i q view c).seeds.lookup j).map (·.read H n) =
+      ((honestContext H j q view c).seeds.lookup i).map (·.read H n) := by
+  rw [(pairwise_symmetric H q view c hi hj hij).1]
+
+example : (1 : Nat) ∈ [9, 1, 10] ∧ (10 : Nat) ∈ [9, 1, 10] ∧ (1 : Nat) ≠ 10 := by decide
+
+/-- `NewContext` called directly (any quorum size, common seed and pairwise seeds of any length):
+when both ends of a pair pass the same bytes for each other, they hold the same seed state. -/
+theorem newcontext_seed_symmetric (H : Hashes) (q : List Nat) (common : Bytes) (f g : Nat → Bytes)
+    {i j : Nat} (hi : i ∈ q) (hj : j ∈ q) (hij : i ≠ j) (hfg : f j = g i) :
+    (newContext H i q common f).seeds.lookup j = (newContext H j q common g).seeds.lookup i ∧
+    ((newContext H i q common f).seeds.lookup j).isSome ∧
+    (newContext H i q common f).sid = (newContext H j q common g).sid ∧
+    (newContext H i q common f).tlog = (newContext H j q common g).tlog := by
+  simp only [newContext, lookup_map_key]
+  have h1 : j ∈ (sortIds q).filter (· != i) := by simp [hj, Ne.symm hij]
+  have h2 : i ∈ (sortIds q).filter (· != j) := by simp [hi, hij]
+  simp only [h1, h2, if_true, Option.isSome_some, and_true, Option.some.injEq, SeedState.mk.injEq, true_and]
+  unfold seedAbsorb
+  rw [hfg, Nat.min_comm, Nat.max_comm]
+
+example : ∃ f g : Nat → Bytes, f 20 = g 3 ∧ (f 20).length = 257 :=
+  ⟨fun _ => List.replicate 257 7, fun _ => List.replicate 257 7, rfl, List.length_replicate⟩
+
 /-- the contribution of the smaller / larger ID of a pair, as party `i` holds them -/
 def loOf (i j : Nat) (mine theirs : Bytes) : Bytes := if i < j then mine else theirs
 def hiOf (i j : Nat) (mine theirs : Bytes) : Bytes := if i < j then theirs else mine
@@ -192,6 +219,23 @@ theorem subcontext_seed_symmetric (H : Hashes) {ca cb : Ctx} {sub sub' : List Na
   simp only [h1, h2, if_true, Option.isSome_some, and_true, Option.some.injEq, SeedState.mk.injEq, true_and]
   unfold subSeedAbsorb
   rw [hsym, subQuorumData_perm hp]
+
+/-- Nested sub-contexts: members that walk the same chain of sub-quorums (each level held in any
+order) from agreeing parents end with the same sid, quorum and transcript state. -/
+theorem subcontext_chain_agree (H : Hashes) {chain chain' : List (List Nat)}
+    (hp : List.Forall₂ List.Perm chain chain') {ca cb : Ctx}
+    (hsid : ca.sid = cb.sid) (hq : ca.quorum = cb.quorum) (hlog : ca.tlog = cb.tlog) :
+    (chain.foldl (subContext H) ca).sid = (chain'.foldl (subContext H) cb).sid ∧
+    (chain.foldl (subContext H) ca).quorum = (chain'.foldl (subContext H) cb).quorum ∧
+    (chain.foldl (subContext H) ca).tlog = (chain'.foldl (subContext H) cb).tlog := by
+  induction hp generalizing ca cb with
+  | nil => exact ⟨hsid, hq, hlog⟩
+  | cons h _ ih =>
+    obtain ⟨h1, h2, h3⟩ := subcontext_agree H h hsid hlog
+    exact ih h1 h2 h3
+
+example : List.Forall₂ List.Perm [[2, 3, 4, 5], [5, 3], [3, 5]] [[5, 4, 3, 2], [3, 5], [5, 3]] :=
+  .cons (by decide) (.cons (by decide) (.cons (by decide) .nil))
 
 /-- the transcript input of an extraction after `SubContext` determines the sub-quorum frame -/
 theorem tExtractInput_sub_inj {log label d d' : Bytes} {n : Nat}
@@ -296,6 +340,39 @@ theorem przs_sum_zero_model {G : Type} [AddCommGroup G] (q : List ℕ) (hq : q.N
     simp [and_comm]
   
 example : ([1, 5, 9] : List ℕ).Nodup := by decide
+
+/-- Every sub-quorum `S ⊆ Q` of every size (the elements `v S` are re-derived per sub-quorum by
+`SubContext`, symmetric for each `S`): the zero shares of the members of `S` sum to zero. -/
+theorem przs_subquorum_sum_zero {G : Type*} [AddCommGroup G] (Q : Finset ℕ) (v : Finset ℕ → ℕ → ℕ → G)
+    (hv : ∀ S ⊆ Q, ∀ i ∈ S, ∀ j ∈ S, v S i j = v S j i) :
+    ∀ S ⊆ Q, ∑ i ∈ S, ∑ j ∈ S.erase i, (if j < i then - v S i j else v S i j) = 0 := by
+  intro S hS
+  -- only the values on `S × S` matter: symmetrise outside
+  let w : ℕ → ℕ → G := fun i j => if i ∈ S ∧ j ∈ S then v S i j else 0
+  have hw : ∀ i j, w i j = w j i := by
+    intro i j
+    by_cases h : i ∈ S ∧ j ∈ S
+    · simp only [w, h, and_self, if_true]
+      exact hv S hS i h.1 j h.2
+    · have h' : ¬ (j ∈ S ∧ i ∈ S) := fun hh => h hh.symm
+      simp [w, h, h']
+  rw [← przs_sum_zero S w hw]
+  apply Finset.sum_congr rfl
+  intro i hi
+  apply Finset.sum_congr rfl
+  intro j hj
+  have hj' : j ∈ S := Finset.mem_of_mem_erase hj
+  simp [w, hi, hj']
+
+example : ({2, 9, 17} : Finset ℕ) ⊆ Finset.range 21 ∧ ({2, 9, 17} : Finset ℕ).card = 3 := by decide
+
+/-- the same for the model's fold over a sub-quorum list `sub` (any duplicate-free list of members) -/
+theorem przs_subquorum_sum_zero_model {G : Type} [AddCommGroup G] (q sub : List ℕ) (_hsub : ∀ i ∈ sub, i ∈ q)
+    (hq : sub.Nodup) (v : ℕ → ℕ → G) (hv : ∀ i j, v i j = v j i) :
+    (sub.map fun i => zeroShare i ((sub.filter (· != i)).map fun j => (j, v i j))).sum = 0 :=
+  przs_sum_zero_model sub hq v hv
+
+example : ([9, 10, 20] : List ℕ).Nodup ∧ ∀ i ∈ ([9, 10, 20] : List ℕ), i ∈ List.range 21 := by decide
 
 /-! ## openings -/
 
